@@ -751,3 +751,104 @@ func c13r8(rc *core.RC) {
 		rc.Unknown("json/encoding-entry-points", token.NoPos, "found %d of the six exported Marshal entry points", n)
 	}
 }
+
+// ---- C13.R9 the memory-access helpers of the four interpreter packages are the same code ----
+
+// The four interpreter packages each carry their own copy of the helper functions. Two things tell
+// the copies apart: whether output is indented and whether it is coloured. A helper whose parameters
+// are all of basic types and whose body mentions neither (load, store, loadNPtr, ptrTo…: pure memory
+// access) depends on neither and must be the same code in all four packages. (The formatting
+// helpers are spelled differently in the packages while doing the same thing — appendMapEnd,
+// appendMapKeyValue — so no syntactic comparison is made for them; C13.R3 and C13.R7 and C03.R3
+// decide what can be decided there.)
+func c13r9(rc *core.RC) {
+	p := rc.P
+	pkgs := []string{"vm", "vm_indent", "vm_color", "vm_color_indent"}
+	type copyOf struct {
+		fd        *ast.FuncDecl
+		norm      string
+		colour    bool
+		indent    bool
+		basicOnly bool
+	}
+	byName := map[string]map[string]*copyOf{}
+	for _, pk := range pkgs {
+		for _, fd := range p.Funcs(pk) {
+			if fd.Body == nil || fd.Recv != nil || fd.Name.Name == "Run" || fd.Name.Name == "DebugRun" || fd.Name.Name == "init" {
+				continue
+			}
+			info := p.Info(fd)
+			c := &copyOf{fd: fd, basicOnly: true}
+			for _, f := range fd.Type.Params.List {
+				tv := info.Types[f.Type]
+				if _, isBasic := tv.Type.(*types.Basic); !isBasic {
+					c.basicOnly = false
+				}
+			}
+			ast.Inspect(fd.Body, func(m ast.Node) bool {
+				switch x := m.(type) {
+				case *ast.SelectorExpr:
+					switch x.Sel.Name {
+					case "ColorScheme", "Header", "Footer":
+						c.colour = true
+					case "Prefix", "IndentStr", "BaseIndent", "Indent":
+						c.indent = true
+					}
+				case *ast.Ident:
+					if strings.Contains(x.Name, "Indent") || strings.Contains(x.Name, "indent") {
+						c.indent = true
+					}
+					if strings.Contains(x.Name, "Color") || strings.Contains(x.Name, "color") {
+						c.colour = true
+					}
+				case *ast.BasicLit:
+					if x.Kind == token.STRING && (strings.Contains(x.Value, "indent") || strings.Contains(x.Value, "color")) {
+						// package-qualified messages ("vm_indent: opcode …") name the package
+						c.indent, c.colour = true, true
+					}
+				}
+				return true
+			})
+			c.norm = core.NormalNode(p.Fset, info, fd.Body, core.NormOpts{}) + " :: " + core.NormalNode(p.Fset, info, fd.Type, core.NormOpts{})
+			if byName[fd.Name.Name] == nil {
+				byName[fd.Name.Name] = map[string]*copyOf{}
+			}
+			byName[fd.Name.Name][pk] = c
+		}
+	}
+	var names []string
+	for n := range byName {
+		names = append(names, n)
+	}
+	sort.Strings(names)
+	same := func(name, a, b, why string) {
+		ca, cb := byName[name][a], byName[name][b]
+		if ca == nil || cb == nil {
+			return
+		}
+		rc.Touch(a + "." + name)
+		rc.Touch(b + "." + name)
+		key := fmt.Sprintf("%s.%s/same-as-%s", b, name, a)
+		rc.Check(ca.norm == cb.norm, key, cb.fd.Pos(), "%s: the copy in %s must be the same code as the one in %s", why, b, a)
+	}
+	for _, name := range names {
+		m := byName[name]
+		anyOf := func(f func(*copyOf) bool) bool {
+			for _, c := range m {
+				if f(c) {
+					return true
+				}
+			}
+			return false
+		}
+		basic := !anyOf(func(c *copyOf) bool { return !c.basicOnly })
+		colour := anyOf(func(c *copyOf) bool { return c.colour })
+		indent := anyOf(func(c *copyOf) bool { return c.indent })
+		switch {
+		case basic && !colour && !indent:
+			for _, pk := range pkgs[1:] {
+				same(name, "vm", pk, "a memory-access helper (basic-typed parameters, no formatting state)")
+			}
+		}
+	}
+}
